@@ -1,3 +1,226 @@
-/-! C10 model (stub) -/
+import OtelVerif.Model.C09
+/-!
+# C10 model: start / stop order of a built service, with failures
+
+Mirrors
+* `service/internal/graph/graph.go` `StartAll` (reverse of `topo.Sort`, capabilities/fan-out nodes skipped,
+  returns at the first `Start` error) and `ShutdownAll` (order of `topo.Sort`, every component, errors collected),
+* `service/extensions/extensions.go` `Start` (in `computeOrder` order, returns at the first error) and
+  `Shutdown` (reverse order, every extension, errors collected), `extensions/graph.go computeOrder`,
+* `service/service.go` `Start` (extensions, then pipelines) and `Shutdown` (pipelines, then extensions),
+* `otelcol/collector.go` `setupConfigurationComponents` (a failed `Start` is followed by `Shutdown`),
+* `internal/sharedcomponent` (`startOnce` / `stopOnce`).
+
+`topo.Sort` is a parameter: the two orders (`gorder` for the component graph, `eorder` for the extensions)
+are inputs constrained by `IsTopo`; nothing else about gonum is assumed.  Core Lean only.
+-/
 namespace OtelVerif.C10
+open OtelVerif.C09
+
+/-- an extension and the ids returned by its `Dependencies()` -/
+structure Ext where
+  id : Nat
+  deps : List Nat
+deriving DecidableEq, Repr
+
+/-- things that have `Start`/`Shutdown`: pipeline components (graph nodes), extensions, and the single inner
+component behind the per-signal instances of a shared receiver -/
+inductive Comp
+  | node (n : Node)
+  | ext (e : Nat)
+  | inner (id : CompId)
+deriving DecidableEq, Repr
+
+/-- `x` occurs before `y` -/
+def Before {α : Type} (l : List α) (x y : α) : Prop := ∃ l1 l2 l3, l = l1 ++ x :: l2 ++ y :: l3
+
+/-- a result of `topo.Sort` on (nodes `ns`, edges `E`): every node once, every edge forward -/
+structure IsTopo {α : Type} (ns : List α) (E : List (α × α)) (order : List α) : Prop where
+  nodup : order.Nodup
+  mem : ∀ n, n ∈ order ↔ n ∈ ns
+  fwd : ∀ a b, (a, b) ∈ E → Before order a b
+
+/-- `computeOrder`'s graph: an edge from each dependency to its dependent -/
+def extEdges (exts : List Ext) : List (Nat × Nat) := exts.flatMap (fun e => e.deps.map (fun d => (d, e.id)))
+
+/-! ## the loops -/
+
+/-- `for … { if err := Start(); err != nil { return err } }` over the planned sequence: outcomes so far -/
+def runStarts (failS : Comp → Bool) : List Comp → List (Comp × Bool)
+  | [] => []
+  | c :: rest => if failS c then [(c, false)] else (c, true) :: runStarts failS rest
+
+def allOk (l : List (Comp × Bool)) : Bool := l.all (·.2)
+
+/-- `for … { if err := Shutdown(); err != nil { errs = append(errs, err); continue } }` -/
+def runStops (failT : Comp → Bool) (plan : List Comp) : List (Comp × Bool) := plan.map (fun c => (c, !failT c))
+
+/-- components of the graph in an order, capabilities / fan-out nodes skipped (`node.(component.Component)`) -/
+def compsOf (order : List Node) : List Comp := (order.filter Node.isComp).map Comp.node
+
+structure Sys where
+  cfg : Cfg
+  exts : List Ext
+  /-- `topo.Sort(componentGraph)` as returned inside `StartAll` -/
+  gorderStart : List Node
+  /-- `topo.Sort(componentGraph)` as returned inside `ShutdownAll` -/
+  gorderStop : List Node
+  /-- `computeOrder` (kept in `extensionIDs`) -/
+  eorder : List Nat
+
+structure Outcome where
+  starts : List (Comp × Bool)
+  startOk : Bool
+  stops : List (Comp × Bool)
+  stopOk : Bool
+deriving Repr
+
+/-- `Extensions.Start` -/
+def extStart (sys : Sys) (failS : Comp → Bool) : List (Comp × Bool) := runStarts failS (sys.eorder.map Comp.ext)
+
+def isRecvN : Node → Bool
+  | .recv _ _ => true
+  | _ => false
+
+/-- `Graph.StartAll` start sequence: reverse topological order, capabilities / fan-out nodes skipped, receivers
+moved behind every other component (`startOrder` in the repaired `StartAll`) -/
+def startPlan (order : List Node) : List Comp :=
+  ((order.reverse.filter Node.isComp).filter (fun n => !(isRecvN n)) ++
+   (order.reverse.filter Node.isComp).filter isRecvN).map Comp.node
+
+/-- `Graph.StartAll` -/
+def graphStart (sys : Sys) (failS : Comp → Bool) : List (Comp × Bool) := runStarts failS (startPlan sys.gorderStart)
+
+/-- `Service.Start`: extensions; only if they all started, the pipelines -/
+def serviceStart (sys : Sys) (failS : Comp → Bool) : List (Comp × Bool) :=
+  let l1 := extStart sys failS
+  if allOk l1 then l1 ++ graphStart sys failS else l1
+
+/-- `Service.Shutdown`: pipelines (topological order), then extensions (reverse start order); never stops early -/
+def serviceShutdown (sys : Sys) (failT : Comp → Bool) : List (Comp × Bool) :=
+  runStops failT (compsOf sys.gorderStop) ++ runStops failT (sys.eorder.reverse.map Comp.ext)
+
+/-- the collector: `Start`; `Shutdown` exactly once, whether or not `Start` failed -/
+def run (sys : Sys) (failS failT : Comp → Bool) : Outcome :=
+  let s := serviceStart sys failS
+  let t := serviceShutdown sys failT
+  { starts := s, startOk := allOk s, stops := t, stopOk := allOk t }
+
+/-! ## who sends data to whom -/
+
+def expand (E : List (Node × Node)) (l : List Node) : List Node :=
+  l.flatMap (fun n => if n.isComp then [n] else succOf E n)
+
+/-- the components `b` hands data to: its successors, looking through capabilities / fan-out nodes
+(at most two in a row: capabilities → fan-out) -/
+def compSucc (E : List (Node × Node)) (b : Node) : List Node :=
+  (expand E (expand E (succOf E b))).filter Node.isComp
+
+/-- all components of a built service -/
+def allComps (sys : Sys) : List Comp :=
+  ((nodes sys.cfg).filter Node.isComp).map Comp.node ++ sys.exts.map (fun e => Comp.ext e.id)
+
+/-! ## the monitor: the property's clauses, executable, evaluated on a log (model's or implementation's) -/
+
+def idx {α : Type} [DecidableEq α] (l : List α) (x : α) : Nat := l.idxOf x
+
+/-- `x` and `y` both occur and the first `x` precedes the first `y` -/
+def beforeB {α : Type} [DecidableEq α] (l : List α) (x y : α) : Bool :=
+  decide (x ∈ l) && decide (y ∈ l) && decide (idx l x < idx l y)
+
+def nodupB {α : Type} [DecidableEq α] : List α → Bool
+  | [] => true
+  | a :: l => !(decide (a ∈ l)) && nodupB l
+
+def isNodeC : Comp → Bool
+  | .node _ => true
+  | _ => false
+
+def isExtC : Comp → Bool
+  | .ext _ => true
+  | _ => false
+
+/-! start clauses on the sequence of started components `st` (in order) -/
+
+/-- at most once, and only components of this service -/
+def startsOnce (sys : Sys) (st : List Comp) : Bool :=
+  nodupB st && st.all (fun c => decide (c ∈ allComps sys))
+
+/-- downstream first: whoever `b` sends data to has started before `b` -/
+def startsDownstreamFirst (sys : Sys) (st : List Comp) : Bool :=
+  (nodes sys.cfg).all (fun b => !(decide (Comp.node b ∈ st)) ||
+    (compSucc (edges sys.cfg) b).all (fun a => beforeB st (Comp.node a) (Comp.node b)))
+
+/-- every extension before every pipeline component -/
+def startsExtFirst (sys : Sys) (st : List Comp) : Bool :=
+  st.all (fun c => !(isNodeC c) || sys.exts.all (fun e => beforeB st (Comp.ext e.id) c))
+
+/-- dependency before dependent -/
+def startsDepFirst (sys : Sys) (st : List Comp) : Bool :=
+  sys.exts.all (fun e => !(decide (Comp.ext e.id ∈ st)) || e.deps.all (fun d => beforeB st (Comp.ext d) (Comp.ext e.id)))
+
+def checkStarts (sys : Sys) (st : List Comp) : Bool :=
+  startsOnce sys st && startsDownstreamFirst sys st && startsExtFirst sys st && startsDepFirst sys st
+
+/-! stop clauses on the sequence of stopped components `sp` (in order) -/
+
+/-- exactly once: no repetition, every component of the service, nothing else -/
+def stopsExactlyOnce (sys : Sys) (sp : List Comp) : Bool :=
+  nodupB sp && (allComps sys).all (fun c => decide (c ∈ sp)) && sp.all (fun c => decide (c ∈ allComps sys))
+
+/-- upstream first -/
+def stopsUpstreamFirst (sys : Sys) (sp : List Comp) : Bool :=
+  (nodes sys.cfg).all (fun b => !(b.isComp) || (compSucc (edges sys.cfg) b).all (fun a => beforeB sp (Comp.node b) (Comp.node a)))
+
+/-- extensions last -/
+def stopsExtLast (sys : Sys) (sp : List Comp) : Bool :=
+  sp.all (fun c => !(isExtC c) || ((nodes sys.cfg).filter Node.isComp).all (fun n => beforeB sp (Comp.node n) c))
+
+/-- dependent before dependency -/
+def stopsDependentFirst (sys : Sys) (sp : List Comp) : Bool :=
+  sys.exts.all (fun e => e.deps.all (fun d => beforeB sp (Comp.ext e.id) (Comp.ext d)))
+
+def checkStops (sys : Sys) (sp : List Comp) : Bool :=
+  stopsExactlyOnce sys sp && stopsUpstreamFirst sys sp && stopsExtLast sys sp && stopsDependentFirst sys sp
+
+/-- only the last start may have failed (nothing is started after a failed start) -/
+def failedStartIsLast (starts : List (Comp × Bool)) : Bool :=
+  match starts.reverse with
+  | [] => true
+  | _ :: earlier => earlier.all (·.2)
+
+/-- failure clauses: nothing is started after a failed start, and the reported results are right -/
+def checkFailures (o : Outcome) : Bool :=
+  failedStartIsLast o.starts && (o.startOk == allOk o.starts) && (o.stopOk == allOk o.stops)
+
+/-- a successful start started everything -/
+def startedAll (sys : Sys) (o : Outcome) : Bool :=
+  !o.startOk || (allComps sys).all (fun c => decide (c ∈ o.starts.map (·.1)))
+
+def check (sys : Sys) (o : Outcome) : Bool :=
+  checkStarts sys (o.starts.map (·.1)) && checkStops sys (o.stops.map (·.1)) && checkFailures o && startedAll sys o
+
+/-! ## shared component (`internal/sharedcomponent`): what the inner component sees -/
+
+inductive Call | start | stop
+deriving DecidableEq, Repr
+
+/-- `Component[V]`: `hostWrapper != nil` / `startOnce` and `stopOnce` -/
+structure Shared where
+  started : Bool := false
+  stopped : Bool := false
+deriving DecidableEq, Repr
+
+/-- one `Start`/`Shutdown` call on any of the per-signal instances; the inner call it causes, if any -/
+def Shared.step (s : Shared) : Call → Shared × Option Call
+  | .start => if s.started then (s, none) else ({ s with started := true }, some .start)
+  | .stop => if s.stopped then (s, none) else ({ s with stopped := true }, some .stop)
+
+def Shared.runCalls (s : Shared) : List Call → List Call
+  | [] => []
+  | c :: rest =>
+    match (s.step c).2 with
+    | some i => i :: (s.step c).1.runCalls rest
+    | none => (s.step c).1.runCalls rest
+
 end OtelVerif.C10
